@@ -7,7 +7,9 @@
 (*   reader goroutine       : Open / OpenFail / OpenEmfile (os.Open takes a     *)
 (*                            descriptor), Probe (gzip.NewReader; for an input  *)
 (*                            that cannot be rewound: peek at the magic number, *)
-(*                            header check through a recorder), Rewind (Seek(0) *)
+(*                            header check through a recorder), NextMember (the *)
+(*                            decompressor reaches the end of a gzip member and *)
+(*                            goes on with the next one), Rewind (Seek(0)       *)
 (*                            resp. replay of the record after a failed probe), *)
 (*                            ReadLine, ReadErr (OnError callback), ReadEnd     *)
 (*                            (file.Close gives the descriptor back), Release   *)
@@ -33,6 +35,9 @@ CONSTANTS ProbeLen,        \* bytes consumed from a file before the gzip probe g
           OpenFirst,       \* FALSE = the design: the reader slot is taken BEFORE the reader is started;
                            \* TRUE = every name gets its goroutine at once, which opens the file and only then
                            \* waits for a slot (broken: TLC must refute FdOK / FinalOK)
+          Multi,           \* "all" = the design: the decompressor reads member after member to the end of the
+                           \* file; "first" = it reports the end of the input at the end of the first member
+                           \* (gzip.Reader.Multistream(false): broken, TLC must refute FinalOK)
           PipeProbe        \* how -z probes an input that cannot be rewound:
                            \*   "record"   the design: peek at the magic number; the header check reads through a
                            \*              recorder whose content is served again when the check fails
@@ -48,13 +53,15 @@ LifeArgs == {a \in ArgLists : Len(a) <= 1 \/ \A i \in DOMAIN a : a[i] \in {Forms
 LifeTrees ==
   IF LifeSel = "t0" THEN {T0}
   ELSE IF LifeSel = "pipes" THEN {TreeWith(P_a, v) : v \in PipeVariants(P_a)}
-  ELSE {TreeSeq[i] : i \in {j \in 1..Len(TreeSeq) : j % NParts = Part}}
+  ELSE IF LifeSel = "members" THEN {TreeWith(P_a, v) : v \in {x \in Variants(P_a) : x[1] = "mgz"}}
+  \* (the walk past non-regular entries is decided on the functional layer: Inputs_MC!LWalkImpl)
+  ELSE {TreeSeq[i] : i \in {j \in 1..Len(TreeSeq) : j % NParts = Part}} \ SpecialTrees
 LifeScenarios ==
   FileScenariosIn(LifeTrees, LifeArgs, {"filter"})
-  \cup (IF LifeSel = "pipes" \/ (LifeSel = "all" /\ Part # 0) THEN {} ELSE {s \in StdinScenarios : s.cmd = "filter"})
+  \cup (IF LifeSel \in {"pipes", "members"} \/ (LifeSel = "all" /\ Part # 0) THEN {} ELSE {s \in StdinScenarios : s.cmd = "filter"})
 
 Active == {"spawned", "wait", "probe", "rewind", "reading", "release"}
-NewReader(m, st0, held) == [m |-> m, st |-> st0, off |-> 0, n |-> 0, lim |-> 0, dec |-> FALSE, errd |-> FALSE,
+NewReader(m, st0, held) == [m |-> m, st |-> st0, off |-> 0, n |-> 0, lim |-> 0, mi |-> 0, dec |-> FALSE, errd |-> FALSE,
                             held |-> held, open |-> FALSE, emf |-> FALSE]
 StdinMention == [std |-> TRUE, p |-> <<>>]
 
@@ -82,6 +89,7 @@ Dispatch ==
   /\ UNCHANGED <<sc, argi, errs, closed, fd>>
 
 \* ---- one reader -------------------------------------------------------------
+MemOfR(r) == IF r.m.std \/ ~Exists(sc.tree, r.m.p) THEN <<>> ELSE NodeAt(sc.tree, r.m.p).mem
 KindOf(r) == IF r.m.std THEN (IF sc.stdin.k = "dir" THEN "dir" ELSE "file") ELSE KindAt(sc.tree, r.m.p)
 RawOf(r)  == IF r.m.std THEN sc.stdin.data ELSE DataAt(sc.tree, r.m.p)
 TrOf(r)   == IF r.m.std \/ ~Exists(sc.tree, r.m.p) THEN "reg" ELSE NodeAt(sc.tree, r.m.p).tr
@@ -114,9 +122,11 @@ Acquire(i) ==
   /\ UNCHANGED <<sc, argi, q, wg, errs, closed, fd>>
 
 \* gzip.NewReader: a gzip header -> decode; anything else -> some bytes were consumed, fall back
+\* (a file of several members: the first member is decoded, NextMember goes on)
 DecodeFrom(i, k, d) ==
-  \E lim \in (IF k = "truncgz" THEN 0..Len(d) ELSE IF k = "badgz" THEN {0} ELSE {Len(d)}) :
-    rd' = [rd EXCEPT ![i].st = "reading", ![i].dec = TRUE, ![i].lim = lim]
+  \E lim \in (IF k = "truncgz" THEN 0..Len(d) ELSE IF k = "badgz" THEN {0}
+              ELSE IF k = "mgz" THEN {MemOfR(rd[i])[1]} ELSE {Len(d)}) :
+    rd' = [rd EXCEPT ![i].st = "reading", ![i].dec = TRUE, ![i].lim = lim, ![i].mi = 1]
 Probe(i) ==
   /\ rd[i].st = "probe"
   /\ LET k == KindOf(rd[i]) d == RawOf(rd[i]) img == ImageOf(rd[i]) pipe == TrOf(rd[i]) = "pipe" IN
@@ -134,14 +144,25 @@ Rewind(i) ==
      rd' = [rd EXCEPT ![i].st = "reading", ![i].off = IF works THEN 0 ELSE @]
   /\ UNCHANGED <<sc, argi, q, sema, wg, errs, closed, fd>>
 
-\* the bytes reader r obtains before its stream ends (by EOF or by a failure)
+\* the decompressor found the trailer of a member and another member behind it
+MoreMembers(r) == r.dec /\ KindOf(r) = "mgz" /\ r.mi < Len(MemOfR(r)) /\ Multi = "all"
+NextMember(i) ==
+  /\ rd[i].st = "reading" /\ MoreMembers(rd[i])
+  /\ rd' = [rd EXCEPT ![i].mi = @ + 1, ![i].lim = @ + MemOfR(rd[i])[rd[i].mi + 1]]
+  /\ UNCHANGED <<sc, argi, q, sema, wg, errs, closed, fd>>
+
+\* the bytes reader r has obtained so far (all it will obtain, by EOF or by a failure, when ~MoreMembers(r))
 Stream(r) ==
   IF r.dec THEN TakeFirst(RawOf(r), r.lim)
   ELSE IF KindOf(r) = "dir" THEN <<>> ELSE DropFirst(ImageOf(r), r.off)
 Fails(r) == IF r.dec THEN KindOf(r) \in {"truncgz", "crcgz", "badgz"} ELSE KindOf(r) = "dir"
 
+\* the lines that can be handed out: while more bytes may follow, only those whose terminator has arrived
+Avail(r) ==
+  LET s == Stream(r) l == Len(LinesOf(s)) IN
+  IF MoreMembers(r) /\ s # <<>> /\ s[Len(s)] # LF THEN l - 1 ELSE l
 ReadLine(i) ==
-  /\ rd[i].st = "reading" /\ rd[i].n < Len(LinesOf(Stream(rd[i])))
+  /\ rd[i].st = "reading" /\ rd[i].n < Avail(rd[i])
   /\ rd' = [rd EXCEPT ![i].n = @ + 1]
   /\ UNCHANGED <<sc, argi, q, sema, wg, errs, closed, fd>>
 \* the OnError callback runs when the failing Read returns - possibly before the lines that
@@ -153,7 +174,7 @@ ReadErr(i) ==
   /\ UNCHANGED <<sc, argi, q, sema, wg, closed, fd>>
 \* end of the stream: the deferred file.Close() gives the descriptor back (the decompressor AND the file)
 ReadEnd(i) ==
-  /\ rd[i].st = "reading" /\ rd[i].n = Len(LinesOf(Stream(rd[i])))
+  /\ rd[i].st = "reading" /\ ~MoreMembers(rd[i]) /\ rd[i].n = Len(LinesOf(Stream(rd[i])))
   /\ Fails(rd[i]) => rd[i].errd
   /\ rd' = [rd EXCEPT ![i].st = "release", ![i].open = FALSE]
   /\ fd' = IF rd[i].open THEN fd - 1 ELSE fd
@@ -172,7 +193,7 @@ Close ==
   /\ closed' = TRUE
   /\ UNCHANGED <<sc, argi, q, rd, sema, wg, errs, fd>>
 
-Reader(i) == OpenFail(i) \/ OpenEmfile(i) \/ Open(i) \/ Acquire(i) \/ Probe(i) \/ Rewind(i) \/ ReadLine(i)
+Reader(i) == OpenFail(i) \/ OpenEmfile(i) \/ Open(i) \/ Acquire(i) \/ Probe(i) \/ NextMember(i) \/ Rewind(i) \/ ReadLine(i)
              \/ ReadErr(i) \/ ReadEnd(i) \/ Release(i)
 Next == Produce \/ Dispatch \/ Close \/ \E i \in DOMAIN rd : Reader(i)
 Finished == closed /\ UNCHANGED vars
@@ -197,7 +218,12 @@ FdOK ==
   /\ sc.readers <= MaxFd => \A i \in DOMAIN rd : ~rd[i].emf
 ErrsOK == errs = Cardinality({i \in DOMAIN rd : rd[i].errd \/ rd[i].emf
                                                 \/ (rd[i].st \in {"release", "done"} /\ KindOf(rd[i]) = "absent")})
-LinesOnce == \A i \in DOMAIN rd : rd[i].n <= Len(LinesOf(Stream(rd[i])))
+LinesOnce == \A i \in DOMAIN rd : rd[i].n <= Avail(rd[i])
+\* a line handed out early is a line of the complete input (a line may span two members)
+MembersOK == \A i \in DOMAIN rd :
+  (rd[i].dec /\ KindOf(rd[i]) = "mgz" /\ Multi = "all") =>
+     /\ rd[i].lim = SumSeq(SubSeq(MemOfR(rd[i]), 1, rd[i].mi))
+     /\ SubSeq(LinesOf(Stream(rd[i])), 1, rd[i].n) = SubSeq(LinesOf(RawOf(rd[i])), 1, rd[i].n)
 
 \* final state: every mention was read exactly once, every input that does not fail was delivered
 \* completely from its first byte, a failing one delivered a prefix; the error counter, and with it
